@@ -1,6 +1,6 @@
 """C13 Character-encoding fidelity — type-level and routing clauses."""
 import re
-from ..mirlib import load, callee_key, _rv_operands
+from ..mirlib import load, callee_key, _rv_operands, guarding_branches
 from ..facts import EngineError
 from . import shared, shared_mir as sm
 
@@ -121,6 +121,31 @@ def run(ctx):
     r.inst("split_utf8_start|guard")
     if len(chk) != 1:
         r.violate("split_utf8_start|guard", "the fast path no longer checks for a pending streaming decoder", su.loc())
+
+    # ------------------------------------------------------------------ R13.6 (see _r136_post below)
+    r = ctx.rule("R13.6", "document bytes are taken as UTF-8 only when the document encoding is UTF-8: every str::from_utf8 / String::from_utf8* on non-test paths is dominated by a test `encoding == UTF_8`, or sits in a reviewed function whose input is not document bytes", "E-MIR dominance", floor=4)
+    REVIEWED_UTF8 = {
+        "LocalNameHash::fmt[Debug]": "Debug output of a hash-decoded ASCII name",
+        "IncompleteUtf8Resync::utf8_bytes_to_slice": "bytes of a &str written by a streaming handler (already UTF-8 by type), split at arbitrary points",
+        "TextDecoder::split_utf8_start": "second site: the prefix up to valid_up_to, which is either the UTF-8-valid prefix (UTF-8 branch) or the ASCII prefix (ascii_valid_up_to) - identical bytes in every ASCII-compatible encoding; the first site must stay guarded (checked below)",
+    }
+    guarded_sites = {}
+    for f in mir.fns:
+        if mir.is_test_fn(f):
+            continue
+        for bi, t in f.calls(r"(^|::)from_utf8(_unchecked|_lossy|_mut)?$"):
+            ck = callee_key(t)
+            key = f"{f.key}|{ck}"
+            gs = [f.deep(f.blocks[sb]["term"]["d"]) for sb in guarding_branches(f, bi)]
+            guarded = any("UTF_8" in g for g in gs)
+            guarded_sites[f.key] = guarded_sites.get(f.key, 0) + (1 if guarded else 0)
+            r.inst(key, nontrivial=False, sample={"fn": f.key, "call": ck, "guarded_by_utf8_test": guarded, "reviewed": REVIEWED_UTF8.get(f.key)})
+            if not guarded and f.key not in REVIEWED_UTF8:
+                r.violate(key, f"{f.key} interprets bytes with {ck} without a dominating `encoding == UTF_8` test: in a legacy-encoded document a value whose bytes happen to be well-formed UTF-8 (Big5 C2 BF, windows-1252 \"Ã©\") is returned as different characters than the document contains", f.loc())
+    su2 = mir.fn("TextDecoder::split_utf8_start")
+    r.inst("split_utf8_start|utf8-branch-guarded")
+    if guarded_sites.get("TextDecoder::split_utf8_start", 0) < 1 or not list(su2.calls(r"ascii_valid_up_to$")):
+        r.violate("split_utf8_start|utf8-branch-guarded", "TextDecoder::split_utf8_start validates the input as UTF-8 without testing encoding == UTF_8 (or no longer limits other encodings to their ASCII prefix)", su2.loc())
 
     ctx.not_decided += ["streaming-decoder correctness at split multi-byte characters and U+FFFD placement (encoding_rs behaviour at run time)", "numeric character reference generation for unmappable characters (encoding_rs encoder)"]
     return ("Type-level witnesses (compile_fail + compiling twin) that only ASCII-compatible encodings can be configured, who-may-call rules for the "
